@@ -47,6 +47,7 @@ def obligations(tier):
         for k in range(3):
             obs.append(Ob("C15.input_entry", F, "input_entry", 200, part="%d,%d" % (e, k),
                           what="leftover queue then run/call(inputs=omitted|list|str): the given inputs REPLACE the queue (also when empty), FIFO, default '0', prompts echoed to the captured stream"))
+    obs.append(Ob("C15.real_stream", F, "real_stream", 200, what="two executions printing texts with CR / CRLF / tabs / no newline through the REAL StringIO (CrossHair's stream model is bypassed): raw output, per-context share and line view exact"))
     if tier == "thorough":
         for i in range(4):
             for j in range(4):
